@@ -159,11 +159,14 @@ func newStreamPool(poolCapacity uint32) *streamPool {
 
 // Close will shutdown the SessionManager's background goroutine and close all stream in stream pool
 func (sm *SessionManager) Close() error {
+	verifTrace("SMClose", sm, nil, 0, 0)
 	sm.cancelFunc()
 	sm.wg.Wait()
+	verifTrace("SMClosing", sm, nil, 0, 0)
 	for i := 0; i < len(sm.pools); i++ {
 		sm.pools[i].close()
 	}
+	verifTrace("SMClosed", sm, nil, 0, 0)
 	return nil
 }
 
@@ -188,6 +191,7 @@ func (sm *SessionManager) background() {
 	for i := 0; i < len(sm.pools); i++ {
 		go func(id int) {
 			defer sm.wg.Done()
+			defer verifTrace("WExit", sm, nil, int64(id), 0)
 			for {
 				sm.RLock()
 				if sm.state == hotRestartState {
@@ -196,6 +200,7 @@ func (sm *SessionManager) background() {
 					continue
 				}
 				pool := sm.pools[id]
+				verifTrace("WPick", sm, pool.Session(), int64(id), 0)
 				sm.RUnlock()
 
 				select {
@@ -203,9 +208,11 @@ func (sm *SessionManager) background() {
 					sm.RLock()
 					// in hotrestart state break this select and wait for hotrestar done
 					if sm.state == hotRestartState {
+						verifTrace("WLost", sm, nil, int64(id), 1)
 						sm.RUnlock()
 						break
 					}
+					verifTrace("WLost", sm, nil, int64(id), 0)
 					sm.RUnlock()
 
 					pool.close()
@@ -225,11 +232,17 @@ func (sm *SessionManager) background() {
 						// this time Session.CloseChan will not rebuild session.
 						sessionHadChangedByHotrestart := sm.pools[id].Session().epochID != pool.Session().epochID
 						if sessionHadChangedByHotrestart {
+							verifTrace("WSkip", sm, nil, int64(id), 0)
 							sm.Unlock()
 							break
 						}
 						// both new epoch pools and old epoch pools which has not been replaced will use new epochId to rebuild session
 						session, err := newClientSession(id, sm.epoch, sm.randID, sm.config)
+						if err == nil {
+							verifTrace("WConn", sm, session, int64(id), 0)
+						} else {
+							verifTrace("WFail", sm, nil, int64(id), 0)
+						}
 						sm.Unlock()
 						if err != nil {
 							internalLogger.errorf("rebuild stream pool's sessionID %d %s failed, reason:%s. retry after %s", id, pool.Session().name, err.Error(), sessionRebuildInterval.String())
@@ -237,6 +250,7 @@ func (sm *SessionManager) background() {
 						}
 						session.manager = sm
 						pool.session.Store(session)
+						verifTrace("WRebuilt", sm, session, int64(id), 0)
 						internalLogger.warnf("rebuild stream pool's sessionID %d %s success", id, pool.Session().name)
 						break
 					}
@@ -260,6 +274,7 @@ func (sm *SessionManager) checkHotRestart() {
 			sm.Lock()
 			if len(sm.reservePools) == len(sm.pools) {
 				sm.state = defaultState
+				verifTrace("MDone", sm, nil, int64(sm.epoch), 0)
 				for _, p := range sm.reservePools {
 					if err := p.Session().hotRestart(sm.epoch, typeHotRestartAck); err != nil {
 						internalLogger.warnf("SessionManager [epoch:%d] ack hotRestart error %+v", sm.epoch, err)
@@ -277,6 +292,7 @@ func (sm *SessionManager) checkHotRestart() {
 				p.close()
 			}
 			sm.reservePools = nil
+			verifTrace("MTimeout", sm, nil, int64(sm.epoch), 0)
 			internalLogger.errorf("SessionManager [epoch:%d] checkHotRestart timeout", sm.epoch)
 			sm.Unlock()
 			return
@@ -306,6 +322,7 @@ func handleSessionManagerHotRestart(sm *SessionManager, params interface{}) {
 	hParams := params.(*sessionManagerHotRestartParams)
 	if sm.state == hotRestartState && sm.epoch != hParams.epoch {
 		internalLogger.warnf("SessionManager [epoch:%d] handleSessionManagerHotRestart get invalid params %+v ", sm.epoch, params)
+		verifTrace("MIgnore", sm, hParams.session, int64(hParams.epoch), 0)
 		return
 	}
 
@@ -326,12 +343,14 @@ func handleSessionManagerHotRestart(sm *SessionManager, params interface{}) {
 
 	if sm.reservePools[hParams.session.sessionID] != nil {
 		internalLogger.warnf("SessionManager [epoch:%d] handleSessionManagerHotRestart get repeat sessionID:%d ", sm.epoch, hParams.session.sessionID)
+		verifTrace("MRepeat", sm, hParams.session, int64(hParams.epoch), 0)
 		return
 	}
 
 	newSession, err := newClientSession(hParams.session.sessionID, sm.epoch, sm.randID, sm.config)
 	if err != nil {
 		internalLogger.warnf("SessionManager [epoch:%d] handleSessionManagerHotRestart newClientSession sessionID:%d error %+v", sm.epoch, hParams.session.sessionID, err)
+		verifTrace("MConnFail", sm, hParams.session, int64(hParams.epoch), 0)
 		return
 	}
 	newSession.manager = sm
@@ -346,6 +365,8 @@ func handleSessionManagerHotRestart(sm *SessionManager, params interface{}) {
 	}
 	sm.reservePools[hParams.session.sessionID] = sm.pools[hParams.session.sessionID]
 	sm.pools[hParams.session.sessionID] = p
+	verifTrace("MSwapOn", sm, hParams.session, int64(hParams.epoch), 0)
+	verifTrace("MSwap", sm, newSession, int64(hParams.epoch), int64(hParams.session.sessionID))
 }
 
 func newClientSession(sessionID int, epochID, randID uint64, config *SessionManagerConfig) (*Session, error) {
